@@ -76,6 +76,9 @@ def analyse_receive(ctx):
     repo = ctx.repo
     cls = repo.cls(FILE, CLS)
     fn = repo.method(FILE, CLS, "receive")
+    from ..repo import inline_self_aliases, inline_arith_temps
+    fn, _aliases = inline_self_aliases(fn)
+    fn = inline_arith_temps(fn)
     W = lambda n=None: where(FILE, CLS + ".receive", getattr(n, "line", None) if n is not None else fn.lineno)
     ev = Evaluator(repo, cls.module, cls)
     g = CFG(fn)
@@ -149,11 +152,17 @@ def analyse_receive(ctx):
     cursor = None
     for n in body:
         s = n.stmt
+        tgt = None
         if n.kind == "stmt" and isinstance(s, ast.AugAssign) and isinstance(s.op, ast.Add) and isinstance(s.target, ast.Name):
+            tgt = s.target.id
+        elif n.kind == "stmt" and isinstance(s, ast.Assign) and len(s.targets) == 1 and isinstance(s.targets[0], ast.Name) \
+                and any(isinstance(x, ast.Name) and x.id == s.targets[0].id for x in ast.walk(s.value)):
+            tgt = s.targets[0].id          # c = c + E
+        if tgt is not None:
             init = [m for m in region if m.id not in body_ids and m.kind == "stmt" and isinstance(m.stmt, ast.Assign) and len(m.stmt.targets) == 1
-                    and isinstance(m.stmt.targets[0], ast.Name) and m.stmt.targets[0].id == s.target.id and cval(ev, m.stmt.value) == (True, 0)]
+                    and isinstance(m.stmt.targets[0], ast.Name) and m.stmt.targets[0].id == tgt and cval(ev, m.stmt.value) == (True, 0)]
             if init:
-                cursor = (s.target.id, n, init[0])
+                cursor = (tgt, n, init[0])
     base = {cursor[0]: 1} if cursor else {}
 
     def shifted(d):
@@ -281,7 +290,10 @@ def analyse_receive(ctx):
               "delivered payload must be %s[%d:%d+%s]" % (Btxt, H, H, size_var), "payload = %s[%d:%d+%s]" % (Btxt, H, H, size_var))
     if cursor is not None:
         cname, adv, init = cursor
-        okadv = linear.equal(linear.lin(adv.stmt.value, ev), {1: H, size_var: 1})
+        advl = linear.lin(adv.stmt.value, ev)
+        if isinstance(adv.stmt, ast.Assign) and advl is not None:
+            advl = linear._add(advl, {cname: 1}, -1)
+        okadv = linear.equal(advl, {1: H, size_var: 1})
         ctx.check("C05.arith", okadv, W(adv), adv.stmt, "the read cursor must advance by exactly %d + %s per delivered frame" % (H, size_var), "cursor += %d + %s" % (H, size_var))
         on_deliver_path = g.path(up, lambda x: x is loop, avoid=[adv]) is None or g.path(adv, lambda x: x is up) is not None
         ctx.check("C05.peel", on_deliver_path, W(adv), adv.stmt,
